@@ -137,6 +137,9 @@ func c06Build(cfg c06Cfg) *c06World {
 	if cfg.JSR {
 		c.Router(restful.RouterJSR311{})
 	}
+	// panics of the "boom" request kind are recovered quietly
+	c.DoNotRecover(false)
+	c.RecoverHandler(func(p interface{}, w http.ResponseWriter) { w.WriteHeader(500) })
 	for i, b := range cfg.C {
 		c.Filter(c06Filter(lg, fmt.Sprintf("c%d", i), b))
 	}
@@ -144,6 +147,9 @@ func c06Build(cfg c06Cfg) *c06World {
 		return func(req *restful.Request, resp *restful.Response) {
 			lg.add(req.Request.Header.Get("X-Req"), "handler "+id+" "+viewOf(req, resp.ResponseWriter))
 			pt("handler")
+			if req.Request.Header.Get("X-Boom") != "" {
+				panic("boom")
+			}
 			io.WriteString(resp, id)
 		}
 	}
@@ -170,13 +176,16 @@ func c06Build(cfg c06Cfg) *c06World {
 }
 
 // request kinds
-var c06Kinds = []string{"one", "two", "404", "405", "plain"}
+var c06Kinds = []string{"one", "two", "404", "405", "plain", "boom"}
 
 func c06Req(kind, rid string) h.Req {
 	q := h.Req{Method: "GET", Hdr: [][2]string{{"X-Req", rid}}}
 	switch kind {
 	case "one":
 		q.Segs = []string{"one", "r"}
+	case "boom": // route one, but the handler panics (recovered): the filters never see their exits
+		q.Segs = []string{"one", "r"}
+		q.Hdr = append(q.Hdr, [2]string{"X-Boom", "1"})
 	case "two":
 		q.Segs = []string{"two", "r"}
 	case "404":
@@ -208,7 +217,7 @@ func c06Model(cfg c06Cfg, kind string) []string {
 	}
 	target := ""
 	switch kind {
-	case "one":
+	case "one", "boom":
 		for i, b := range cfg.S {
 			chain = append(chain, f{fmt.Sprintf("s%d", i), b})
 		}
@@ -254,6 +263,9 @@ func c06Model(cfg c06Cfg, kind string) []string {
 		} else {
 			log = append(log, target+" "+view())
 		}
+	}
+	if kind == "boom" && !stopped {
+		return log // the panic unwinds through the filters: no exits
 	}
 	for i := len(entered) - 1; i >= 0; i-- {
 		log = append(log, "exit "+entered[i])
@@ -442,7 +454,7 @@ func checkC06(run *h.Run) {
 	run.Cov["evaluations"] = e1cases + seqTrans
 	run.Cov["distinct_nontrivial"] = e1cases + seqStates
 	run.Cov["exhaustive"] = true
-	run.Cov["rule"] = fmt.Sprintf("E1: every assignment of behaviours {pass, stop, replace pair, set attribute, http middleware} to (n_c, n_s, n_r) in {0,1,2}^3 filters (thorough also n_c = 3 and RouterJSR311) x request kinds {route one, route two of another service, 404, 405, HandleWithFilter pattern}; the per-request event log (entries with the view each filter/handler has of pair, attributes, context, writer; handler; exits) must equal the ten-line model's. E2: every sequence of <= %d requests on one container for %d configurations, last request judged the same way. E3 (instrumented): concurrent requests, all schedules within the preemption bound with yields at every filter entry/exit and handler, happens-before race detection. Every case is non-trivial.", depth, len(seqCfgs))
+	run.Cov["rule"] = fmt.Sprintf("E1: every assignment of behaviours {pass, stop, replace pair, set attribute, http middleware} to (n_c, n_s, n_r) in {0,1,2}^3 filters (thorough also n_c = 3 and RouterJSR311) x request kinds {route one, route two of another service, 404, 405, HandleWithFilter pattern, route one with a handler that panics (recovered)}; the per-request event log (entries with the view each filter/handler has of pair, attributes, context, writer; handler; exits) must equal the ten-line model's. E2: every sequence of <= %d requests on one container for %d configurations, last request judged the same way. E3 (instrumented): concurrent requests, all schedules within the preemption bound with yields at every filter entry/exit and handler, happens-before race detection. Every case is non-trivial.", depth, len(seqCfgs))
 	run.Assume = []string{"model c06Model: registration order container, service, route; first stop ends the chain; views follow the nearest upstream replace/attr/middleware"}
 	if f := e3Part["C06"]; f != nil {
 		f(run)
